@@ -454,7 +454,7 @@ func Binop(op string, a, b Value) (v Value, err *OpErr, unspec string) {
 	if aStr && bInt && op == "*" {
 		n := b.(int)
 		if n < 0 {
-			return nil, &OpErr{Class: "repeat", Contains: []string{"repeat count"}}, ""
+			return nil, &OpErr{Class: "repeat", Contains: nil /* wording not fixed by the property or the suite */}, ""
 		}
 		if n > 0 && len(as) > (1<<20)/n {
 			return "", nil, "string repetition beyond 2^20 bytes"
@@ -635,7 +635,7 @@ func (in *interp) run(body []*gen.Stmt) {
 			in.out.Lines = append(in.out.Lines, fmt.Sprintln(v))
 		case "def":
 			if len(in.blocks) == MaxBlockDepth {
-				in.rt = &RuntimeErr{Class: "nest", Stmt: st, Contains: []string{"nested too deep"}}
+				in.rt = &RuntimeErr{Class: "nest", Stmt: st, Contains: nil /* wording not fixed by the property or the suite */}
 				return
 			}
 			name := ""
@@ -658,7 +658,7 @@ func (in *interp) run(body []*gen.Stmt) {
 				parent := in.blocks[len(in.blocks)-1]
 				k := blockKey(b)
 				if _, dup := parent.Fields[k]; dup {
-					in.rt = &RuntimeErr{Class: "dupchild", Stmt: st, Contains: []string{"child " + k + " duplicate"}}
+					in.rt = &RuntimeErr{Class: "dupchild", Stmt: st, Contains: nil /* wording not fixed by the property or the suite */}
 					return
 				}
 				parent.Fields[k] = *b
@@ -685,7 +685,7 @@ func (in *interp) run(body []*gen.Stmt) {
 			}
 			if sel == "1" && len(cand) != 1 {
 				in.rt = &RuntimeErr{Class: "bindcount", Stmt: st,
-					Contains: []string{fmt.Sprintf("found %d blocks of type %s", len(cand), st.Name), "expected just 1"}}
+					Contains: []string{fmt.Sprintf("found %d blocks of type %s", len(cand), st.Name)}}
 				return
 			}
 			var chosen []bcl.Block
